@@ -158,16 +158,26 @@ class ProofFailure(Exception):
         self.log = log
 
 
-def sh(cmd, timeout=600, cwd=None, env=None):
+def sh(cmd, timeout=600, cwd=None, env=None, retry_killed=2):
+    """Run a command.  A process that was KILLED from outside (SIGKILL: the kernel's out-of-memory
+    killer when the machine is overcommitted) says nothing about the code or the proofs: it is run
+    again, after a pause, up to `retry_killed` times before its failure is reported."""
     t0 = time.time()
-    try:
-        p = subprocess.run(cmd, cwd=cwd, env=env, stdout=subprocess.PIPE,
-                           stderr=subprocess.STDOUT, timeout=timeout, text=True,
-                           errors="replace")
-        return p.returncode, p.stdout, time.time() - t0
-    except subprocess.TimeoutExpired as e:
-        out = e.stdout.decode(errors="replace") if isinstance(e.stdout, bytes) else (e.stdout or "")
-        return 124, out + f"\n[timeout after {timeout}s]", time.time() - t0
+    for attempt in range(retry_killed + 1):
+        try:
+            p = subprocess.run(cmd, cwd=cwd, env=env, stdout=subprocess.PIPE,
+                               stderr=subprocess.STDOUT, timeout=timeout, text=True,
+                               errors="replace")
+        except subprocess.TimeoutExpired as e:
+            out = e.stdout.decode(errors="replace") if isinstance(e.stdout, bytes) else (e.stdout or "")
+            return 124, out + f"\n[timeout after {timeout}s]", time.time() - t0
+        if p.returncode in (-9, 137) and attempt < retry_killed:
+            time.sleep(20 * (attempt + 1))
+            continue
+        out = p.stdout
+        if p.returncode in (-9, 137):
+            out += f"\n[process killed by SIGKILL {retry_killed + 1} times: out of memory?]"
+        return p.returncode, out, time.time() - t0
 
 
 def coq_build(timeout=3000) -> float:
